@@ -84,7 +84,7 @@ fn watchdog_main() {
                 for v in &tape {
                     d.u64(*v);
                 }
-                let path = format!("{}/replays/new/C19-{:016x}.tape", vkit::runner::VERIF_ROOT, d.finish());
+                let path = format!("{}/replays/new/C19-{:016x}.tape", vkit::runner::out_root(), d.finish());
                 let f = Fail::new("hang", format!("a single {} did not return within {} s of wall-clock time (tape = the draws made before that call; replaying it hangs again)", what, HANG_SECS));
                 vkit::runner::write_replay(&path, "C19", "resolver", &tape, &f, &[]);
                 println!("failure key={} part=resolver : {}", f.key, f.msg);
